@@ -147,7 +147,12 @@ func baseNextToken(l *Lexer) token.Token {
 		startLine, startColumn := l.Line, l.Column
 		tok = l.NewTokenAt(token.RAW_STRING, l.readRawString(), startLine, startColumn)
 	case 0:
-		tok = l.NewToken(token.EOF, "")
+		if l.atEOF() {
+			// no ReadChar: end of input is reported at the same place however often it is requested
+			return l.NewToken(token.EOF, "")
+		}
+		// a NUL byte inside the input
+		tok = l.NewToken(token.ILLEGAL, string(l.CurrentChar))
 	default:
 		if isLetter(l.CurrentChar) {
 			// Capture position BEFORE reading the identifier
